@@ -154,6 +154,8 @@ class ProgGen:
         if via == "compound":
             st["s2"] = rng.choice(self.pool)
             st["e"] = rng.choice([1, 2, -1])
+            if rng.random() < 0.35:
+                st["as_delta"] = rng.random() < 0.5  # the substitution switched on or off for this call
             if rng.random() < 0.2:
                 st["s2"] = "nosuchunit"  # the first factor is resolved (and registered) before the failure
         return st
@@ -253,7 +255,7 @@ class NamesWorld:
     def generate(self, streams, tier, index):
         kr = streams.get("knobs")
         knobs = {"numtype": kr.choice(["float", "Fraction"]), "case_sensitive": kr.random() < 0.75,
-                 "lru": kr.choice([1, 8, 128, None])}
+                 "lru": kr.choice([1, 8, 128, None]), "default_as_delta": kr.random() < 0.8}
         fr = streams.get("faults")
         rates = {}
         if fr.random() < 0.6:
@@ -361,6 +363,8 @@ def _default_program(case):
         if via == "compound":
             st["s2"] = rng.choice(["meter", "second", "kg", "degC"])
             st["e"] = rng.choice([1, 2, -1])
+            if rng.random() < 0.3:
+                st["as_delta"] = rng.random() < 0.5
         if via in ("parse_units", "get_name", "get_symbol", "parse_unit_name") and rng.random() < 0.12:
             st["cs"] = False
             if rng.random() < 0.6:
@@ -407,6 +411,7 @@ class _Run:
             self.table = NamesTable.from_spec(self.case["spec"])
             try:
                 self.ureg = pint.UnitRegistry(list(self.lines), non_int_type=self.T, case_sensitive=kn["case_sensitive"])
+                self.ureg.default_as_delta = kn.get("default_as_delta", True)
             except Exception as e:
                 raise HarnessError(f"world does not load: {type(e).__name__}: {e}")
             self.program = self.case["program"]
@@ -414,8 +419,10 @@ class _Run:
         else:
             self.table = copy.deepcopy(default_table())
             self.ureg = pint.UnitRegistry(non_int_type=self.T)
+            self.ureg.default_as_delta = kn.get("default_as_delta", True)
             # a second registry, built and never touched: forked children put one question to it
             self.pristine = pint.UnitRegistry(non_int_type=self.T)
+            self.pristine.default_as_delta = kn.get("default_as_delta", True)
             self.program = _default_program(self.case)
         core.install_flaky(self.ureg, self.plan, self.col)
 
@@ -456,7 +463,7 @@ class _Run:
             if via == "compound":
                 e = s.get("e", 1)
                 expr = f"{st} * {s['s2']}" if e == 1 else (f"{st} ** 2 * {s['s2']}" if e == 2 else f"{s['s2']} / {st}")
-                return ["units", norm_units(ureg.parse_units(expr))]
+                return ["units", norm_units(ureg.parse_units(expr, **({"as_delta": s["as_delta"]} if "as_delta" in s else {})))]
         except RecursionError:
             return ["exc", "RecursionError"]
         except Exception as e:
@@ -468,6 +475,7 @@ class _Run:
             if self.kind == "gen":
                 fresh = self.pint.UnitRegistry(list(self.lines) + self.defs, non_int_type=self.T,
                                                case_sensitive=self.case["knobs"]["case_sensitive"])
+                fresh.default_as_delta = self.case["knobs"].get("default_as_delta", True)
                 if self.ctx_on:
                     fresh.enable_contexts("cx")  # succeeded on the live registry with the same definitions
                 return self.lookup(fresh, s)
@@ -548,10 +556,12 @@ class _Run:
                     if offset_prefixed(r) or offset_prefixed(r2):
                         continue
                     a, b = t.canonical(r), t.canonical(r2)
-                    # in a compound, offset units are read as their delta counterparts
-                    if not t.units[r[1]]["mult"]:
+                    # in a compound, offset units are read as their delta counterparts unless that is disabled
+                    # (for the call, else for the registry)
+                    delta = s["as_delta"] if "as_delta" in s else self.case["knobs"].get("default_as_delta", True)
+                    if delta and not t.units[r[1]]["mult"]:
                         a = "delta_" + a
-                    if not t.units[r2[1]]["mult"]:
+                    if delta and not t.units[r2[1]]["mult"]:
                         b = "delta_" + b
                     e = s.get("e", 1)
                     m = {}
